@@ -4,6 +4,7 @@ import json
 import re
 
 import vlib
+from checks import datelib
 
 META = {
     "property_id": "C22",
@@ -419,6 +420,8 @@ def gen(r, ctx=None):
             dt = "%d\t%d\t%d\t%d\t%d\t%d\t%d" % (gen_year(r), r.randint(-30, 40), r.randint(-400, 400), r.randint(-50, 50),
                                                   r.randint(-100, 100), r.randint(-100, 100), r.randint(-2 * 10**9, 2 * 10**9))
         return T + "dt\tmk\t" + dt
+    if sub == "date" and r.random() < 0.4:
+        dt = "%d\t%d\t%d\t%d\t%d\t%d\t%d" % ((r.choice([MAXY + 1, MINY - 1, MAXY, MINY, 5000000, -5000000, 1 << 23, (1 << 23) + 2000]), m, d) + tod)
     if sub in ("addts", "subts"):
         return T + "dt\t%s\t%s\t%d" % (sub, dt, gen_ns(r))
     if sub in ("addds", "subds"):
@@ -519,4 +522,4 @@ def run(ctx):
         keep.append(ln)
         ff = ln.split("\t")
         ctx.stat("op:" + ff[1] + (":" + ff[2] if ff[1] in ("dt", "ds", "ts", "dts") else ""))
-    vlib.correspond(ctx, keep, oracle=oracle, minimise=minimise, label="date domain", keyfn=keyfn)
+    datelib.correspond(ctx, keep, oracle=oracle, minimise=minimise, label="date domain", keyfn=keyfn)
